@@ -421,7 +421,9 @@ class _AdversarialFairness(BaseEstimator):
             Array-like containing the sensitive features of the
             training data.
         """
-        first_call = not hasattr(self, "classes_")
+        first_call = not hasattr(self, "classes_") or not self.warm_start
+        if first_call and hasattr(self, "classes_"):
+            del self.classes_
 
         X, y, A = self._validate_input(X, y, sensitive_features, first_call)
 
